@@ -64,6 +64,7 @@ fn open_core_ow(b: &Backend, key: Option<PartialKeypair>, open: bool, cache: Cac
             CacheMode::None => {}
             CacheMode::Default => bd = bd.node_cache_options(hypercore::CacheOptionsBuilder::new()),
             CacheMode::Tiny => bd = bd.node_cache_options(hypercore::CacheOptionsBuilder::new().max_capacity(200)),
+            CacheMode::Volatile => bd = bd.node_cache_options(hypercore::CacheOptionsBuilder::new().time_to_live(std::time::Duration::ZERO).max_capacity(400)),
         }
         #[cfg(not(feature = "cache"))]
         let _ = cache;
@@ -474,6 +475,7 @@ fn run_configs(ctx: &mut Ctx, steps: &[Step], key_seed: u64, with_disk: bool, ta
     let mut configs: Vec<(u8, CacheMode, &str)> = vec![
         (0, CacheMode::Default, "instrumented:default"),
         (0, CacheMode::Tiny, "instrumented:tiny"),
+        (0, CacheMode::Volatile, "instrumented:volatile"),
         (1, CacheMode::None, "memory:none"),
         (1, CacheMode::Tiny, "memory:tiny"),
     ];
